@@ -9,7 +9,7 @@ from harness.drivers.c12 import proj_lists
 from harness.project import ProjectionError
 
 UNIT = 100.0   # one model time unit = 100 ms
-FORMS = ("from_dict", "items", "append_item", "sorted_rev", "stack_write", "shuffled")
+FORMS = ("from_dict", "items", "append_item", "sorted_rev", "stack_write", "shuffled", "stack_then_edit")
 
 
 def notes_of(m):
@@ -55,6 +55,15 @@ def build(game, notes, form, r):
         m.holds = m.holds.sorted(reverse=True)
     if form == "stack_write":
         m.stack().offset += 0.0
+    if form == "stack_then_edit":
+        # history: stacks were taken (all lists, and the note lists only), then the lists were edited directly
+        from reamber.base.lists.notes.HitList import HitList
+        from reamber.base.lists.notes.HoldList import HoldList
+        m.stack()
+        m.stack((HitList, HoldList))
+        m.hits.offset += UNIT / 2
+        m.holds.offset += UNIT / 2
+        m.holds.length += UNIT / 2
     return m
 
 
